@@ -25,8 +25,17 @@ thread_local! {
     pub static LOG: RefCell<Log> = RefCell::new(Log::default());
 }
 
+thread_local! {
+    /// one-shot: the next body executed on this thread takes this much REAL time (a slow backend)
+    pub static BODY_SLEEP_MS: std::cell::Cell<u64> = std::cell::Cell::new(0);
+}
+
 fn executed() -> Script {
     LOG.with(|l| l.borrow_mut().executed += 1);
+    let ms = BODY_SLEEP_MS.with(|c| c.replace(0));
+    if ms > 0 {
+        std::thread::sleep(std::time::Duration::from_millis(ms));
+    }
     SCRIPT.with(|s| s.borrow().clone())
 }
 fn pad(v: u64, len: usize) -> String {
@@ -42,6 +51,10 @@ pub fn body_string(_f: usize, _x: u32) -> String {
     let mut out = String::with_capacity(s.len + 17);
     out.push_str(&pad(s.v, s.len));
     out
+}
+/// a function without a return value, cached for its effect: the effect is the execution count
+pub fn body_unit(_f: usize, _x: u32) {
+    let _ = executed();
 }
 pub fn body_res_u64(_f: usize, _x: u32) -> Result<u64, u64> {
     let s = executed();
@@ -80,6 +93,12 @@ pub trait Encode {
 impl Encode for u64 {
     fn encode(&self) -> u64 { 2 * *self }
     fn estimate(&self) -> usize { std::mem::size_of::<u64>() }
+}
+impl Encode for () {
+    // `()` carries no value: what the call "returned" is this call's scripted value (the bodies of
+    // unit functions are only used with pure scripts, where it is the function's value for the key)
+    fn encode(&self) -> u64 { 2 * SCRIPT.with(|s| s.borrow().v) }
+    fn estimate(&self) -> usize { 0 }
 }
 impl Encode for String {
     fn encode(&self) -> u64 { 2 * self.trim().parse::<u64>().unwrap_or(999_999) }
